@@ -170,3 +170,24 @@ func VH_C12_MergeNoConstructor() {
 	vassert(a.Regions["x"] == b.Regions["x"] && a.Styles["y"] == b.Styles["y"], "C12 Merge(no constructor): definitions merged")
 	vreach("end")
 }
+
+// C12 Order on longer lists (the standard library switches sorting strategies with the size): 14 / 26 cues whose starts
+// follow a fixed pattern with many ties, three of them symbolic.
+func VH_C12_OrderLarge() {
+	n := vbound("cues", 14, 26)
+	var items []*Item
+	var sts []int64
+	for i := 0; i < n; i++ {
+		st := int64((i*7+3)%4) * 1000000000
+		if i == 2 || i == n/2 || i == n-2 {
+			st = nondetInt64(0, 3) * 1000000000
+		}
+		items = append(items, &Item{StartAt: time.Duration(st), Index: i})
+		sts = append(sts, st)
+	}
+	s := &Subtitles{Items: append([]*Item{}, items...)}
+	vreach("pre")
+	s.Order()
+	vc12CheckSorted(s.Items, items, sts, "C12 Order(large)")
+	vreach("end")
+}
